@@ -4,6 +4,7 @@
    the same theorems over an arbitrary commutative ring. *)
 From Coq Require Import ZArith QArith Qcanon List.
 From NutsV Require Import model.Leapfrog model.LeapfrogQc proofs.Leapfrog_facts.
+From NutsV Require model.Mclmc proofs.Mclmc_facts.
 Import ListNotations.
 Local Open Scope Qc_scope.
 
@@ -114,6 +115,23 @@ Theorem C02_energy_error_quadratic :
       E q1 v2 - E q v = eps * eps * quarter * (w2 * w2) * (q1 * q1 - q * q).
 Proof. exact c_energy_error_quadratic. Qed.
 Print Assumptions C02_energy_error_quadratic.
+
+(* the third kinetic-energy kind (microcanonical / ESH dynamics, model/Mclmc.v): a forward step
+   followed by a backward step returns to the start, for every unit-gradient field and every
+   non-zero z field that respect equality of positions (n = dimension) *)
+Theorem C02_microcanonical_step_reversible :
+  forall (ghat_of : list Q -> list Q) (z_of : list Q -> Q) (c : Q) (n : nat),
+    (forall x, length x = n -> length (ghat_of x) = n) ->
+    (forall x, length x = n -> (Mclmc.qdot (ghat_of x) (ghat_of x) == 1)%Q) ->
+    (forall x, length x = n -> ~ (z_of x == 0)%Q) ->
+    (forall x y, length x = n -> Forall2 Qeq x y ->
+       Forall2 Qeq (ghat_of x) (ghat_of y) /\ (z_of x == z_of y)%Q) ->
+    forall q p : list Q, length q = n -> length p = n -> (Mclmc.qdot p p == 1)%Q ->
+    let (q1, p1) := Mclmc.micro_step ghat_of z_of c true q p in
+    let (q2, p2) := Mclmc.micro_step ghat_of z_of c false q1 p1 in
+    Forall2 Qeq q2 q /\ Forall2 Qeq p2 p.
+Proof. exact Mclmc_facts.micro_step_reversible. Qed.
+Print Assumptions C02_microcanonical_step_reversible.
 
 (* non-vacuity: the model evaluates; a diagonal transformation of the kind the harness builds
    satisfies the round-trip hypotheses *)
